@@ -2,6 +2,7 @@ package props
 
 import (
 	eval "github.com/onheap/eval"
+	"math"
 
 	"verifmc/drive"
 	"verifmc/ref"
@@ -280,6 +281,22 @@ func extraPrograms() []*Prog {
 			add(term.Op("between", B, term.Const(c), n(), term.Const(int64(1))))
 			add(term.Op("between", B, term.Const(c), term.Const(int64(0)), n()))
 			add(term.Op("between", B, n(), m(), term.Const(c)))
+		}
+	}
+	// arithmetic folds over constants whose sums and products leave int64
+	// (wrap-around is the documented arithmetic; an optimiser that combines
+	// constants must wrap at the same places as operand-by-operand evaluation)
+	{
+		m := func() *term.Term { return term.Var("m", I) }
+		big := [][2]int64{{1 << 62, 4}, {1 << 32, 1 << 32}, {1 << 32, 1<<32 + 1}, {math.MaxInt64, 2}, {math.MinInt64, -1}, {-1, math.MinInt64}, {3037000500, 3037000500}, {1 << 62, 1 << 62}}
+		for _, op := range []string{"/", "*", "+", "-", "%"} {
+			for _, cc := range big {
+				c1, c2 := term.Const(cc[0]), term.Const(cc[1])
+				add(term.Op(op, I, n(), c1, c2))
+				add(term.Op(op, I, c1.Clone(), n(), c2.Clone()))
+				add(term.Op(op, I, n(), c1.Clone(), m(), c2.Clone()))
+				add(term.Op("=", B, term.Op(op, I, n(), c1.Clone(), c2.Clone()), term.Const(int64(0))))
+			}
 		}
 	}
 	for _, ne := range []string{"!=", "ne"} {
